@@ -107,6 +107,9 @@ pub fn build_template(t: &str, src: &Path, dst: &Path, names: &[&str]) {
         }
         _ => {}
     }
+    // a source mtime in the last nanosecond before the next second, destination equal to the whole second
+    put_file(src, "edge-second-S", b"edge", 1_600_300_000, 999_999_999);
+    put_file(dst, "edge-second-S", b"EDGE", 1_600_300_000, 1);
     // destination-only files (deleted iff --delete and not excluded), excluded files on both sides
     put_file(dst, "only-dst", b"dst only", 1_400_000_000, 0);
     put_file(dst, "sub/only-dst-2", b"dst only 2", 1_400_000_001, 0);
@@ -294,11 +297,8 @@ pub fn c04_oracle(c: &Cfg, p: &Prepared, out: &CliOut) -> Option<(String, String
                 return Some(("created_outside_plan".into(), format!("directory {d:?} was created although no transferred file lives under it"), d.clone()));
             }
         }
-        for d in &p.dst0.1 {
-            if !dirs1.contains(d) {
-                return Some(("removed_outside_plan".into(), format!("directory {d:?} disappeared"), d.clone()));
-            }
-        }
+        // (a directory that disappears after all of its files were legitimately deleted is not a
+        // file being removed: the property speaks about files, and the file checks above cover contents)
         // the Plan / Complete lines
         let plan = counts("Plan:", &out.stderr);
         let done = counts("Complete:", &out.stdout);
@@ -734,8 +734,16 @@ pub fn run_c14(ctx: &Ctx) -> ! {
 // ═════════════════════════ C15 (CLI half) ═════════════════════════
 
 fn c15_tree(src: &Path, dst: &Path) {
-    let names = crate::c19::name_universe();
+    let mut names = crate::c19::name_universe();
+    // non-ASCII names: `?` stands for one CHARACTER
+    names.extend(["é".to_string(), "é.".to_string(), "日a".to_string()]);
     let mut i = 0i64;
+    // a directory that exists ONLY on the destination: stale files next to files an exclude may protect
+    for n in &names {
+        i += 1;
+        put_file(dst, &format!("old/{n}"), b"destination only, in a destination-only directory", 1_450_000_000 + i, 0);
+    }
+    put_file(dst, "old/zz-stale", b"stale", 1_450_000_000, 0);
     for prefix in ["", "d/"] {
         for (k, n) in names.iter().enumerate() {
             i += 1;
